@@ -27,7 +27,7 @@ var _ cipher.AEAD = (*zzStreamAEAD)(nil)
 //verif:harness C28 out_keystream_is_next_record unwind=400
 //verif:expect end
 //verif:assume the AEAD is a stream cipher in its first n bytes with a keystream that is a function of the nonce (uninterpreted); true of AES-GCM and ChaCha20-Poly1305
-//verif:doc GetOutKeystream(n) for the real TLS 1.2 prefix-nonce and TLS 1.3 xor-nonce wrappers, an arbitrary 64-bit sequence number, arbitrary nonce prefix/mask and n in 0..3 (thorough: 0..17, i.e. across an AES block boundary): XORed with the next n plaintext bytes it equals the first n ciphertext bytes of the next application-data record after any explicit nonce (halfConn.encrypt runs for real); the call leaves the sequence number and the wrapper state unchanged.
+//verif:doc GetOutKeystream(n) for the real TLS 1.2 prefix-nonce and TLS 1.3 xor-nonce wrappers, an arbitrary 64-bit sequence number, arbitrary nonce prefix/mask and n in 0..3 (thorough: 0..17, i.e. across an AES block boundary): XORed with the next n plaintext bytes it equals the first n ciphertext bytes of the next application-data record after any explicit nonce (halfConn.encrypt runs for real); the call leaves the sequence number and the wrapper state unchanged, and zero, one or two earlier calls with longer lengths (40, then 2 bytes) do not change its result.
 func zzC28OutKeystreamIsNextRecord() {
 	inner := &zzStreamAEAD{}
 	c := &Conn{config: &Config{}}
@@ -50,6 +50,13 @@ func zzC28OutKeystreamIsNextRecord() {
 	copy(c.out.seq[:], verifBytes("seq", 8))
 	verifAssume(c.out.seq[7] != 0xff) // no carry into the harness' copy of the counter
 	seqBefore := c.out.seq
+	// earlier calls with other lengths must not influence this one (no scratch
+	// state survives a call): none, one of 40 bytes, or 40 then 2 bytes
+	for i, k := 0, verifChoice("earlier-calls", 3); i < k; i++ {
+		prev, perr := uc.GetOutKeystream([]int{40, 2}[i])
+		verifAssert(perr == nil && len(prev) == []int{40, 2}[i]+16, "earlier-call-succeeds")
+	}
+	inner.nonces = nil
 	n := verifChoice("n", zzTierN(4, 18))
 	ks, err := uc.GetOutKeystream(n)
 	verifAssert(err == nil && len(ks) == n+16, "keystream-length-n-plus-tag")
